@@ -52,6 +52,7 @@ struct FaultRun {
     err_writes: u64,
     err_reads: u64,
     open_failed: bool,
+    monitored_ops: u64,
 }
 
 fn settle(db: &DB) {
@@ -59,7 +60,11 @@ fn settle(db: &DB) {
 }
 
 fn run_with_fault(h: &History, plan: Option<FaultPlan>) -> FaultRun {
-    let mut out = FaultRun { sig: None, calls: 0, fired: 0, ok_writes: 0, err_writes: 0, err_reads: 0, open_failed: false };
+    run_with_fault_drv(h, plan, None)
+}
+
+fn run_with_fault_drv(h: &History, plan: Option<FaultPlan>, drv_path: Option<&str>) -> FaultRun {
+    let mut out = FaultRun { sig: None, calls: 0, fired: 0, ok_writes: 0, err_writes: 0, err_reads: 0, open_failed: false, monitored_ops: 0 };
     let fs = SimFs::new();
     let mut cfg = h.cfg.clone();
     fs.reset_calls();
@@ -312,6 +317,16 @@ fn run_with_fault(h: &History, plan: Option<FaultPlan>) -> FaultRun {
         }
     }
     reclass(&mut out.sig);
+    // the stream of COMPLETED operations (failed calls are simply absent) against the durability
+    // monitor: the ordering discipline must hold under faults too
+    if let (Some(p), None) = (drv_path, out.sig.as_ref()) {
+        let mut drv = crate::drv::Drv::spawn(p);
+        let (n, bad) = crate::crash::monitor(&fs, &mut drv);
+        out.monitored_ops = n as u64;
+        if let Some(what) = bad {
+            out.sig = Some(("c08:operation-order-outside-the-verified-discipline-under-fault".into(), what));
+        }
+    }
     out
 }
 
@@ -356,7 +371,7 @@ pub fn rule() -> &'static str {
     "histories (puts, deletes, batches, fills forcing flushes, gets, scans, manual compactions, reopens) on SimFs with a single injected filesystem failure at call position n of the whole call stream (create, write/append, rename, remove, open-for-read, size, list, lock …), transient (that call) and sticky (that call and all later ones); every position for streams up to the budget, an even sample beyond; then the fault is removed and the database reopened. Non-trivial = the fault fired and at least one write had been acknowledged before the end; distinct by (history, position, mode)."
 }
 
-pub fn run(tier: &str, seed: u64, replay: Option<&str>, corpus_dir: &str, shard: Option<ShardArgs>) -> Report {
+pub fn run(tier: &str, seed: u64, replay: Option<&str>, corpus_dir: &str, shard: Option<ShardArgs>, drv_path: &str) -> Report {
     crate::lsm::install_panic_hook();
     let mut rep = Report::new("c08", rule());
     let thorough = tier == "thorough";
@@ -414,7 +429,12 @@ pub fn run(tier: &str, seed: u64, replay: Option<&str>, corpus_dir: &str, shard:
             for sticky in [false, true] {
                 let line = format!("{hline} at={pos} sticky={}", if sticky { 1 } else { 0 });
                 note_progress(&shard_opt, &line);
-                let r = run_with_fault(h, Some(FaultPlan { at: pos, sticky }));
+                let use_drv = if drv_path != "none" && (pos / stride) % 4 == 0 { Some(drv_path) } else { None };
+                let r = run_with_fault_drv(h, Some(FaultPlan { at: pos, sticky }), use_drv);
+                rep.add("c08.completed-operations-checked-by-the-durability-monitor", r.monitored_ops);
+                if r.monitored_ops > 0 {
+                    rep.model_requests += 1;
+                }
                 rep.case(&line, r.fired > 0 && r.ok_writes > 0);
                 rep.add("c08.ok-writes", r.ok_writes);
                 rep.add("c08.err-writes", r.err_writes);
